@@ -216,6 +216,43 @@ def generated_programs(kinds, seeds):
     return [mk(k, s) for k in kinds for s in seeds]
 
 
+CONTROLLED = ('yastn.tensor._contractions', 'yastn.tensor._merging', 'yastn.tensor._algebra', 'yastn.tensor._einsum')
+
+
+def control_reaches_every_handle(ctx, progs):
+    """set_cache_maxsize / clear_cache act on every cache object that is actually in use: every name in the package bound to an lru wrapper
+    (defining module or 'from ._x import f') has the requested size after a resize and is empty after a clear"""
+    import sys, yastn
+
+    def handles():
+        out = {}
+        for mn, mod in list(sys.modules.items()):
+            if mn.startswith('yastn') and mod is not None:
+                for an, obj in list(vars(mod).items()):
+                    if callable(obj) and hasattr(obj, 'cache_info') and hasattr(obj, '__wrapped__') and \
+                            getattr(obj.__wrapped__, '__module__', '') in CONTROLLED:       # the tables of the registry (not e.g. the contraction-path cache of oe_blocksparse)
+                        out['%s.%s' % (mn, an)] = obj
+        return out
+    for size in (7, 0, 1024):
+        yastn.set_cache_maxsize(size)
+        for _, prog in progs[:25]:
+            try:
+                prog()
+            except Exception:
+                pass
+        hs = handles()
+        ctx.case(dict(kind='cache-control', size=size, handles=len(hs)), nontrivial=True)
+        wrong = sorted(n for n, h in hs.items() if h.cache_info().maxsize != size)
+        if wrong:
+            ctx.violation('after set_cache_maxsize(%d) these names still hold a cache of another size (they keep using it): %r' % (size, [(n, hs[n].cache_info().maxsize) for n in wrong][:6]),
+                          dict(kind='cache-control-resize', size=size, stale=wrong))
+        yastn.clear_cache()
+        full = sorted(n for n, h in handles().items() if h.cache_info().currsize != 0)
+        if full:
+            ctx.violation('after clear_cache() these caches still hold entries: %r' % full[:6], dict(kind='cache-control-clear', size=size, not_cleared=full))
+    yastn.set_cache_maxsize(1024)
+
+
 def run(ctx):
     st = vlib.prepare(ctx, PROP_V, need_translators=('tr_cache',))
     quick = ctx.tier == 'quick'
@@ -235,6 +272,7 @@ def run(ctx):
     for sd in range(3 if quick else 12):
         progs += shared_layout_programs(1000 + sd)
         progs.append(mismatched_fusion_program(2000 + sd))
+    control_reaches_every_handle(ctx, progs)
     # ---- cold reference (no probes: pristine wrappers, cache cleared before every program)
     cold = {}
     for key, prog in progs:
